@@ -39,3 +39,40 @@ pub fn ent_prepared_len(t: &EntityReactionAccessTracker) -> usize { t.prepared.l
 pub fn ent_prepared_at(t: &EntityReactionAccessTracker, i: usize) -> (SystemCommand, Entity, EntityReactionType) { t.prepared[i] }
 pub fn ent_reacting(t: &EntityReactionAccessTracker) -> bool { t.currently_reacting }
 pub fn ent_current(t: &EntityReactionAccessTracker) -> (SystemCommand, Entity, EntityReactionType) { (t.system, t.reaction_source, t.reaction_type) }
+
+use crate::react::entity_world_reactor::verif_h::{TR, mk_entity_reactor, mk_local};
+
+/// C16 / C03: during a run of the entity world reactor caused by entity X, `EntityLocal` exposes exactly X's local data -
+/// not another entity's - and `get_mut` modifies X's data only.  (Which entity is the source is symbolic.)
+#[kani::proof]
+#[kani::stub(core::any::TypeId::of, crate::vh::stub_typeid_of)]
+#[kani::stub(<core::any::TypeId as crate::vh::PEq>::eq, crate::vh::stub_typeid_eq)]
+#[kani::unwind(4)]
+fn entity_local_exposes_the_source_entitys_data()
+{
+    let mut world = World::new();
+    let d1: u8 = kani::any(); let d2: u8 = kani::any();
+    let e1 = world.spawn(mk_local::<TR>(d1)).id();
+    let e2 = world.spawn(mk_local::<TR>(d2)).id();
+    let reactor_sys = SystemCommand(ent(50));
+    let mut res = EntityWorldReactorRes::<TR>::new(reactor_sys);
+    let from_first: bool = kani::any();
+    let source = if from_first { e1 } else { e2 };
+    let tracker = EntityReactionAccessTracker{ currently_reacting: true, system: reactor_sys, reaction_source: source,
+        reaction_type: EntityReactionType::Mutation(TypeId::of::<Ca>()), prepared: Vec::new() };
+    let wp = &mut world as *mut World;
+    {
+        let mut local: EntityLocal<TR> = EntityLocal{ reactor: mk_entity_reactor(&mut res), tracker: Res::m_new(&tracker), data: qry(wp) };
+        assert!(local.entity() == source, "C16: the entity that caused the run");
+        let (e, v) = local.get();
+        assert!(e == source && *v == (if from_first { d1 } else { d2 }), "C16/C03: exactly the local data attached to the causing entity");
+        let (e, v) = local.get_mut();
+        assert!(e == source);
+        *v = v.wrapping_add(1);
+    }
+    let v1 = *world.get::<EntityWorldLocal<TR>>(e1).unwrap().inner();
+    let v2 = *world.get::<EntityWorldLocal<TR>>(e2).unwrap().inner();
+    assert!(v1 == (if from_first { d1.wrapping_add(1) } else { d1 }) && v2 == (if from_first { d2 } else { d2.wrapping_add(1) }), "C16: a modification lands on the causing entity's data only");
+    kani::cover!(from_first, "first entity"); kani::cover!(!from_first, "second entity");
+    std::mem::forget(world);
+}
